@@ -21,6 +21,7 @@ PMAPS = {
     'init': {'x0': {'vars': ['so/x'], 'nodes': ['a']}, 'k': {'vars': ['so/k'], 'nodes': ['a']}},
     # the second of two parallel edges between one pair of variables, addressed by its index
     'par_edge': {'w': {'vars': ['weight'], 'edges': [['a/so/x', 'b/to/u', 1]]}},
+    'par_edge2': {'w': {'vars': ['weight'], 'edges': [['a/so/x', 'b/to/u', 2]]}},
     'par_edge0': {'w': {'vars': ['weight'], 'edges': [['a/so/x', 'b/to/u', 0]]}, 'k': {'vars': ['so/k'], 'nodes': ['a']}},
     'three': {'k': {'vars': ['so/k'], 'nodes': ['b']}, 'w': {'vars': ['weight'], 'edges': [['a/so/x', 'b/to/u']]},
               'x0': {'vars': ['so/x'], 'nodes': ['a']}},
@@ -39,7 +40,7 @@ def build(name):
     if name == 'par':
         return CircuitTemplate('net', nodes={'a': n, 'b': n},
                                edges=[('a/so/x', 'b/to/u', None, {'weight': 2.0}), ('a/so/x', 'b/to/u', None, {'weight': -0.75}),
-                                      ('b/so/x', 'a/to/u', None, {'weight': 0.5})])
+                                      ('a/so/x', 'b/to/u', None, {'weight': 0.375}), ('b/so/x', 'a/to/u', None, {'weight': 0.5})])
     return CircuitTemplate('net', nodes={'a': n, 'b': n, 'cc': n},
                            edges=[('a/so/x', 'b/to/u', None, {'weight': 2.0}), ('cc/so/x', 'b/to/u', None, {'weight': -0.25}),
                                   ('b/so/x', 'cc/to/u', None, {'weight': 1.25})])
